@@ -70,6 +70,11 @@ CHECKS = {
          "For 48 (quick) / 96 (thorough) sketcher kinds - SuperMinHash f32/f64, SuperMinHash2 u32/u64, SetSketcher u8/u16/u32 with overflowing and clipping parameter sets, both densified sketchers f32/f64, ProbMinHash2, and ProbOrdMinHash2's self-clearing hash_set, sizes {1,3,16} (+2,7,64) - every pre-history up to depth 3 (4) over {3 items, burst of 12 items, slice, empty slice (error path), end_sketch, merge with a fixed sketch, reinit} is followed by the reset and by every post-input of depth 1..2 (3); the complete observation (all views, cardinal stats, overflow count, ProbMinHash registers) must be bit-identical to a fresh instance fed the post-input (8.1e5 executions quick). Non-vacuity counters report how many pre-histories had lowered a_upper, raised lower_k, overflowed a register, or left densification pending/finished. A watchdog turns a non-returning finish call into a violation.",
          "hidden state that never influences a later observable view is not observed; deeper histories assumed alike",
          "DESIGN.md §4 C13"),
+ "C04": ("model_checking",
+         "exhaustive operation-sequence exploration: every stream (order, repetition) x every chunking up to a length, grouped by item set",
+         "For 65 (quick) / 104 (thorough) kinds - SuperMinHash f32/f64, SuperMinHash2 u32/u64, SetSketcher u8/u16/u32 with three parameter sets, both densified sketchers f32/f64, sizes {1,2,3,7,64} (+5,16,200) - every stream of length 1..5 (6) over 5 (6) symbols (4-5 single items and a burst of 12 fresh items that drives a_upper / lower_k / nb_empty into their regimes) is run on the real sketcher item-wise, under every one of the 2^(L-1) chunkings into slice calls, and interleaved with empty slice calls; for the densified sketchers item-wise + end_sketch versus one slice call. All streams with the same set of distinct items must produce the bit-identical sketch (all views, cardinality statistics); positions of hash-storing sketches must hold hashes of streamed items (2.8e6 executions quick).",
+         "SetSketch's overflow counter and lazily maintained lower bound are diagnostics, not part of the sketch (C05 speaks about them); longer streams assumed alike",
+         "DESIGN.md §4 C04"),
 }
 PENDING_REASON = "check not built yet in this revision (see DESIGN.md §4 for the planned model-checking approach)"
 
